@@ -148,6 +148,14 @@ PROPS.update({
         "not_decided": [],
     },
 })
+PROPS["C20"] = {
+    "level": "proof",
+    "level_text": "order formulas and well-formedness of FCN (fixed margin), market maker and arbitrage agents as postconditions over symbolic market states and parameters; loop invariants for the running max/min and the component basket",
+    "level_note": COMMON_NOTE + "; log/exp/gauss uninterpreted (only exp > 0, monotonicity facts); market accessors abstracted to ghost functions, themselves verified under C06/C17",
+    "tasks": ["FCNAgent.submit_orders_by_market", "MarketMakerAgent.get_base_price", "MarketMakerAgent.submit_orders", "ArbitrageAgent._submit_orders"],
+    "not_decided": ["MarketShareFCNAgent market choice (weights = recent traded volume + 1e-10, then the FCN order on the chosen market): contract not finished; normal-margin mode of FCN"],
+}
+PROPS["C18"]["tasks"].append("json_extends")
 PROPS["C10"]["tasks"] += SKELETON
 PROPS["C05"]["tasks"] += RUNNER_ELEMS
 PROPS["C06"]["tasks"] += SKELETON + ["SequentialRunner._generate_sessions[session]"]
